@@ -18,7 +18,7 @@ CODE INVOLVED (starting points): {', '.join(d['anchors']['files'])}
 Your task: produce {n} DIFFERENT realistic changes (bugs) to the library source under {wt}/taurex, each of which BREAKS this property while the code still imports and the existing test-suite still passes exactly as before (`cd {wt} && PYTHONPATH={wt} /venv/bin/python -m pytest -q -p no:cacheprovider -x --timeout=900 tests/<relevant files>`; note a number of tests already fail or error on this interpreter without any change — compare against the unmodified tree, do not try to fix those). Prefer changes that need something specific to manifest — an unusual input or corner region, a particular multi-step sequence of operations, a particular ordering, a crash/fault at a particular point, a specific configuration, or two cooperating edits in different places that each look harmless alone — NOT ones that ordinary use or a trivial smoke test would expose at once. They should look like plausible developer mistakes or careless refactorings (off-by-one, wrong comparison, stale cache, swapped arguments, missing sort, unit slip, lost update …), be small (a few lines), and each should exercise a different mechanism or clause of the property.
 
 For each change k = 1..{n} create a directory {wt}/_seed/k/ containing:
-  * patch.diff  — `git diff` of that change alone against the unmodified worktree (paths relative to the repository root, applies with `git apply`); reset the tree (`git checkout -- taurex`) between changes so the patches are independent;
+  * patch.diff  — `git diff` of that change alone against the unmodified worktree (paths relative to the repository root, applies with `git apply`); reset the tree (`git checkout -- taurex`, or `git apply -R`) between changes so the patches are independent; NEVER use `git stash` (the stash is shared with other people's worktrees of the same repository and pops get crossed), and do not create branches or commits;
   * demo.py     — a small standalone program (uses only the library, numpy, stdlib; builds any inputs/fixtures in memory or in a temp dir; no network, no data files from outside) that exits 0 and prints PASS when the property holds for its scenario and exits 1 printing FAIL with the offending numbers when it does not. It must PASS on the unmodified worktree and FAIL with the patch applied. Run it as `cd {wt} && PYTHONPATH={wt} /venv/bin/python -W ignore _seed/k/demo.py`;
   * README.md   — which clause of the property the change breaks, what is needed for it to manifest, which tests you ran (with and without the patch) and their pass/fail counts.
 Verify all of it yourself (demo passes without / fails with the patch; relevant tests unchanged; `python -c "import taurex"` works). Leave the worktree checked out clean (no patch applied) at the end, with only the _seed directory added. Reply with a short list of the changes you made (file, idea, what it needs to manifest).""")
